@@ -31,7 +31,7 @@ META = dict(
                 "bit, Read; invariants C09_RoundTrip, C09_FileIsOVF2, C09_ReadsForeign, C09_DamagedBinaryRejected. Every TLC state is "
                 "replayed on the real Field.to_file / Field.from_file with an independent OVF reader/writer as the foreign party and "
                 "with byte-exact fault enumeration; seeded random executions are validated by TLC against spec/C09Trace.tla."),
-    level_note=("Bounds: quick 58 fields (meshes to 3x2x2, 1-6 components, 10 label sets, units none/A/m/T, 0-2 subregions), thorough 182 "
+    level_note=("Bounds: quick 72 fields (meshes to 3x2x2, 1-6 components, 11 label sets, units none/A/m/T/'J m-3', 0-2 subregions), thorough 226 "
                 "fields (meshes to 4x3x2, 3 geometries, 0-3 subregions); faults on files of <= 6 data values: every byte offset from the "
                 "start of the check value to the end of the data block and all 64/32 check bits. The spec names the relation between "
                 "written and read values (Same / F32Round / Rel1e-9) and their order; the relation itself is evaluated by the harness "
@@ -222,11 +222,26 @@ class Unbuildable(Exception):
     """the field of the state cannot be constructed under this embedding (not C09's business, e.g. D18)"""
 
 
-def write_own(df, f, emb, path, rep, ext, as_int=False):
+OWN_EXT = [".ovf", ".omf", ".ohf"]
+READ_EXT = [".ovf", ".omf", ".ohf", ".oef"]
+
+
+def own_path(scratch, tag, f):
+    return os.path.join(scratch, tag + OWN_EXT[(sum(f["n"]) + f["nv"]) % 3])
+
+
+def write_own(df, f, emb, path, rep, ext, as_int=False, over=False):
     try:
         field = build_field(df, f, emb, as_int)
+        if over:  # another field (same mesh, one subregion, other values) was written to this path before
+            g = dict(f, subs=[{"name": "old", "lo": list(f["lo"]), "hi": coords_of(f)[3:]}], vals=[[1] * f["nv"]] * len(f["vals"]), unit="old")
+            decoy = build_field(df, g, emb, as_int)
     except Exception as ex:
         raise Unbuildable(f"{type(ex).__name__}: {ex}")
+    if over:
+        with warnings.catch_warnings():
+            warnings.simplefilter("ignore")
+            decoy.to_file(path, representation="bin8")
     with warnings.catch_warnings():
         warnings.simplefilter("ignore")
         field.to_file(path, representation=rep, extend_scalar=bool(ext))
@@ -316,6 +331,14 @@ def try_read(df, path):
 
 
 # ------------------------------------------------------------------ channel R
+def unit_cond(u):
+    return "none" if u == NONE else ("space" if " " in u else "str")
+
+
+def file_cond(f, ext, rep):
+    return "ext-vector" if (ext and f["nv"] > 1) else ("unit-space" if " " in f["unit"] else rep)
+
+
 def cond_labels(f):
     return f["lclass"]
 
@@ -324,7 +347,7 @@ def raise_cond(f, ext, rep):
     return "ext-vector" if (ext and f["nv"] > 1) else f"labels-{f['lclass']}/{rep}"
 
 
-def compare_record(part, clause, f, exp, got, gexact, flat, emb, wit, ext=False, rep=""):
+def compare_record(part, clause, f, exp, got, gexact, flat, emb, wit, ext=False, rep="", over=False):
     """attribute-by-attribute comparison of the observed read-back record with the spec's obs.v"""
     key = lambda attr, cond: f"{clause}/{attr}/{cond}"
     dy = "dyadic" if emb.dyadic else "real"
@@ -337,14 +360,15 @@ def compare_record(part, clause, f, exp, got, gexact, flat, emb, wit, ext=False,
     if got["nv"] != exp["nv"]:
         part.violation(key("nvdim", "ext" if ext else "plain"), "component count differs after reading the file", wit(got=got["nv"]))
     if exp["unit"]["j"] and got["unit"] != exp["unit"]["v"]:
-        part.violation(key("unit", "none" if exp["unit"]["v"] == NONE else "str"),
+        part.violation(key("unit", unit_cond(exp["unit"]["v"])),
                        "field unit differs after reading the file", wit(got=got["unit"], want=exp["unit"]["v"]))
     if exp["labels"]["j"] and tuple(got["labels"]) != tuple(exp["labels"]["v"]):
         part.violation(key("labels", cond_labels(f)), "component labels differ after reading the file",
                        wit(got=got["labels"], want=exp["labels"]["v"]))
     want_subs = [{"name": s["name"], "lo": list(s["lo"]), "hi": list(s["hi"])} for s in exp["subs"]]
     if got["subs"] != want_subs:
-        part.violation(key("subregions", str(len(want_subs))), "subregions differ after reading the file", wit(got=got["subs"]))
+        part.violation(key("subregions", "stale-sidecar" if (over and not want_subs) else str(len(want_subs))),
+                       "subregions differ after reading the file", wit(got=got["subs"]))
     if got["nv"] == exp["nv"] and tuple(got["n"]) == tuple(exp["n"]):
         bad = [(k, c, POOL[i], float(flat[k][c])) for k, cell in enumerate(exp["vals"]) for c, i in enumerate(cell)
                if not rel_ok(exp["rel"], POOL[i], flat[k][c])]
@@ -369,16 +393,16 @@ def exec_state(df, st, emb, part, scratch, tag):
         return
     as_int = emb.name == "unit" and (sum(f["n"]) % 2 == 1)
     wit = lambda **kw: dict(state=st, embedding=emb.name, as_int=as_int, **kw)
-    path = os.path.join(scratch, f"{tag}.ovf")
+    path = own_path(scratch, tag, f) if fl["by"][0] == "own" else os.path.join(scratch, tag + READ_EXT[(sum(f["n"]) + f["nv"]) % 4])
     for p in (path, path + ".subregions.json"):
         if os.path.exists(p):
             os.remove(p)
     part.count()
-    if kind == "write":
+    if kind in ("write", "writeover"):
         _, rep, ext = act
         rel = {"bin8": "Same", "bin4": "F32Round", "txt": "Rel1e-9"}[rep]
         try:
-            write_own(df, f, emb, path, rep, ext, as_int)
+            write_own(df, f, emb, path, rep, ext, as_int, over=fl.get("over", False))
         except Unbuildable:
             part.note("skipped:field-not-constructible-under-embedding")
             return
@@ -389,7 +413,7 @@ def exec_state(df, st, emb, part, scratch, tag):
         with open(path, "rb") as fh:
             raw = fh.read()
         o, err = observe_file(raw, f, emb, rel)
-        cond = "ext-vector" if (ext and f["nv"] > 1) else rep
+        cond = file_cond(f, ext, rep)
         if err or not o["conform"]:
             part.violation(f"C09_FileIsOVF2/format/{cond}", "an independent OVF reader does not accept the written file",
                            wit(problems=err or o["problems"]))
@@ -421,7 +445,7 @@ def exec_state(df, st, emb, part, scratch, tag):
     ext = own and fl["by"][2]
     try:
         if own:
-            write_own(df, f, emb, path, rep, ext, as_int)
+            write_own(df, f, emb, path, rep, ext, as_int, over=fl.get("over", False))
         else:
             write_foreign(fl, f, emb, path)
     except Unbuildable:
@@ -442,7 +466,7 @@ def exec_state(df, st, emb, part, scratch, tag):
             part.violation(f"{clause}/read-raises/{raise_cond(f, ext, rep)}", "Field.from_file raises on an undamaged file", wit(exc=g))
             return
         got, gexact, flat = observe_field(g, f, emb, obs["v"]["rel"])
-        compare_record(part, clause, f, obs["v"], got, gexact, flat, emb, wit, ext=ext, rep=rep)
+        compare_record(part, clause, f, obs["v"], got, gexact, flat, emb, wit, ext=ext, rep=rep, over=fl.get("over", False))
         if len(fl["data"]) > 1 or not own or f["subs"]:
             part.nontriv(str(f), str(fl["by"]), emb.name)
         return
@@ -486,15 +510,20 @@ def rnd_labels(rnd, nv, reserved):
         cls, mk = "plain", lambda: rnd.choice("abcdefghpqrsuvwxyz")
     elif r < 0.7:
         cls, mk = "multi", lambda: "".join(rnd.choice(ALNUM) for _ in range(rnd.randrange(2, 5)))
-    elif r < 0.9:
+    elif r < 0.87:
         cls, mk = "under", lambda: rnd.choice(["m", "ft", "B", "q0"]) + "_" + "".join(rnd.choice(ALNUM) for _ in range(rnd.randrange(1, 3)))
+    elif r < 0.9:
+        cls, mk = "reserved", lambda: rnd.choice(["m", "B"]) + "_" + rnd.choice(["mean", "hv", "norm", "mesh", "x", "y", "z", "q"])
     else:
         cls, mk = "nonword", lambda: rnd.choice("abc") + rnd.choice("-.+") + rnd.choice(ALNUM)
     out = []
     while len(out) < nv:
         s = mk()
-        if s not in out and s not in reserved:
+        # (a suffix that is a Field attribute makes a foreign file unreadable: that is the separate class "reserved")
+        if s not in out and s not in reserved and (cls != "under" or s.split("_", 1)[1] not in reserved):
             out.append(s)
+    if cls == "reserved" and not any(s.split("_", 1)[1] in reserved for s in out):
+        cls = "under"
     return out, cls
 
 
@@ -505,7 +534,7 @@ def gen_trace(df, rnd, tid, embs, scratch):
     labels, lclass = rnd_labels(rnd, nv, RESERVED)
     ncell = n[0] * n[1] * n[2]
     f = {"lo": g["lo"], "c": g["c"], "n": n, "nv": nv, "labels": labels, "lclass": lclass,
-         "unit": rnd.choice([NONE, "A/m", "T", "J/m^3", "rad", "1"]), "munit": rnd.choice(["m", "nm", "um"]),
+         "unit": rnd.choice([NONE, "A/m", "T", "J/m^3", "rad", "1", "J m-3"]), "munit": rnd.choice(["m", "nm", "um"]),
          "vals": [[rnd.randrange(len(POOL)) for _ in range(nv)] for _ in range(ncell)], "subs": []}
     for k in range(rnd.choice([0, 0, 1, 2, 3])):
         a = [sorted(rnd.sample(range(n[d] + 1), 2)) for d in range(3)]
@@ -513,7 +542,7 @@ def gen_trace(df, rnd, tid, embs, scratch):
                           "lo": [g["lo"][d] + g["c"][d] * a[d][0] for d in range(3)], "hi": [g["lo"][d] + g["c"][d] * a[d][1] for d in range(3)]})
     emb = rnd.choice(embs)
     ev = []
-    path = os.path.join(scratch, f"t{tid}.ovf")
+    path = os.path.join(scratch, f"t{tid}{rnd.choice(OWN_EXT)}")
     small = ncell * nv <= 60
     for step in range(rnd.randrange(1, 4)):
         for p in (path, path + ".subregions.json"):
@@ -523,24 +552,25 @@ def gen_trace(df, rnd, tid, embs, scratch):
         rel = {"bin8": "Same", "bin4": "F32Round", "txt": "Rel1e-9"}[rep]
         if rnd.random() < 0.6:
             ext = rnd.random() < 0.3
+            over = (not ext) and rnd.random() < 0.25
             try:
-                write_own(df, f, emb, path, rep, ext)
+                write_own(df, f, emb, path, rep, ext, over=over)
             except Unbuildable:
                 f["subs"] = []  # e.g. D18: subregions "not aligned" at this scale; C14's business
                 continue
             except Exception as ex:
-                ev.append({"k": "write", "repr": rep, "ext": ext, "ok": False, "exc": type(ex).__name__})
+                ev.append({"k": "write", "repr": rep, "ext": ext, "over": over, "ok": False, "exc": type(ex).__name__})
                 continue
             with open(path, "rb") as fh:
                 raw = fh.read()
             o, err = observe_file(raw, f, emb, rel, read_sidecar(path, f, emb))
             if err:
-                ev.append({"k": "write", "repr": rep, "ext": ext, "ok": True,
+                ev.append({"k": "write", "repr": rep, "ext": ext, "over": over, "ok": True,
                            "file": {"conform": False, "exact": False, "ver": 0, "repr": rep, "check": "none", "data": [], "side": [],
                                     "hdr": {"meshunit": "", "base": [0] * 3, "step": [4] * 3, "nodes": [0] * 3, "min": [0] * 3, "max": [0] * 3,
                                             "valuedim": 0, "labels": [], "units": []}}, "err": err})
                 continue
-            ev.append({"k": "write", "repr": rep, "ext": ext, "ok": True, "file": _logfile(o)})
+            ev.append({"k": "write", "repr": rep, "ext": ext, "over": over, "ok": True, "file": _logfile(o)})
         else:
             ver = rnd.choice([1, 2]) if nv == 3 else 2
             style = "plain" if ver == 1 else rnd.choice(["plain", "minimal"] + (["prefixed"] if lclass in ("plain", "multi") else []))
@@ -629,7 +659,7 @@ def trace_key(t, l, name):
     if attr in ("read-raises", "write-raises"):
         cond = raise_cond(f, ext, rep)
     elif attr == "unit":
-        cond = "none" if f["unit"] == NONE else "str"
+        cond = unit_cond(f["unit"])
     elif attr == "labels":
         cond = f["lclass"]
     elif attr == "values" or attr == "data":
@@ -637,7 +667,9 @@ def trace_key(t, l, name):
     elif attr == "nvdim":
         cond = "ext" if ext else "plain"
     elif attr in ("format", "struct"):
-        cond = "ext-vector" if ext and f["nv"] > 1 else rep
+        cond = file_cond(f, ext, rep)
+    elif attr == "subregions":
+        cond = "stale-sidecar" if (w.get("over") and not f["subs"]) else str(len(f["subs"]))
     elif clause == "C09_DamagedBinaryRejected":
         cut = ev.get("cut")
         attr = "check-bit" if ev["k"] == "corrupt" else f"truncate-{cut[0]}{'-inside' if cut[2] else ''}"
